@@ -387,6 +387,62 @@ fn large_case(rng: &mut Rng, emit: &mut dyn FnMut(String)) {
     emit_sources(rng, n, &m, Some(vert(0)), emit);
 }
 
+/// "Funnel": an ACYCLIC digraph in which ONE vertex is improved as often as possible by the in-place sweep
+/// (arcs are swept by tail, then head): the sink gets an in-arc from every other vertex with strictly
+/// decreasing candidate distances in sweep order (order - 1 improvements in round 1), and descending arcs
+/// (tail id > head id) lower an early funnel vertex after its arc to the sink was swept, so the sink improves
+/// again in round 2, 3, …  Exact answer: plain DAG distances; no circuit at all, so `None` is always wrong.
+/// (Round 7: an "improved `order` times ⇒ negative circuit" early exit counted per relaxation, not per round.)
+fn funnel_case(rng: &mut Rng, emit: &mut dyn FnMut(String)) {
+    let n = 4 + rng.below(if quick() { 9 } else { 20 });
+    let t = if rng.chance(3, 4) { n - 1 } else { 1 + rng.below(n - 1) }; // the sink
+    let top: i64 = 1_000 + rng.range(0, 1_000);
+    let step: i64 = 5 + rng.range(0, 10);
+    let mids: Vec<usize> = (1..n).filter(|&i| i != t).collect();
+    let mut m = WArcs::new();
+    let mut a_of = vec![0i64; n];
+    let _ = m.insert((0, t), top + rng.range(1, 50));
+    for (k, &i) in mids.iter().enumerate() {
+        let a = rng.range(1, 30);
+        a_of[i] = a;
+        let _ = m.insert((0, i), a);
+        // a_i + b_i = top - step * k: strictly decreasing in sweep order
+        let _ = m.insert((i, t), top - step * (k as i64) - a);
+    }
+    // descending arcs j -> i (j > i, both funnel vertices): dist(i) drops by delta AFTER (i, t) was swept
+    let floor = top - step * (mids.len() as i64 - 1);
+    let rounds = 1 + rng.below(3);
+    let mut last_best = floor;
+    for _ in 0..rounds {
+        if mids.len() < 2 {
+            break;
+        }
+        let ii = rng.below(mids.len() - 1);
+        let jj = ii + 1 + rng.below(mids.len() - 1 - ii);
+        let (i, j) = (mids[ii], mids[jj]);
+        if m.contains_key(&(j, i)) {
+            continue;
+        }
+        // new dist(i) = a_j + c; new candidate for t = a_j + c + b_i, must undercut the best so far
+        let b_i = m[&(i, t)];
+        let want = last_best - 1 - rng.range(0, 7); // candidate for the sink
+        let c = want - b_i - a_of[j];
+        let _ = m.insert((j, i), c);
+        if rng.chance(3, 4) {
+            last_best = want;
+        }
+    }
+    // the descending arcs only go from larger to smaller funnel ids, everything else is 0 -> x or x -> t: acyclic
+    if !dag_fits(n, &m) {
+        return;
+    }
+    let a = shuffled(rng, &m);
+    emit(line(n, &a, 0));
+    if rng.chance(1, 3) {
+        emit(line(n, &a, mids[rng.below(mids.len())]));
+    }
+}
+
 /// The structured families of `random_case` with every weight multiplied by a large factor
 /// (circuits, negative circuits, early exits … at 2^31 … 2^49 magnitude).  Every value the code
 /// can form is the weight of a walk with at most 3·(n-1)·m arcs (three calls), far inside isize.
@@ -436,6 +492,11 @@ pub fn gen(rng: &mut Rng, thorough: bool, emit0: &mut dyn FnMut(String)) {
     let n_scaled = if stress { 1_000 } else if thorough { 400 } else { 60 };
     for _ in 0..n_scaled {
         scaled_case(rng, emit);
+    }
+    // funnel: one vertex improved `order` times or more without any circuit
+    let n_funnel = if stress { 1_500 } else if thorough { 600 } else { 120 };
+    for _ in 0..n_funnel {
+        funnel_case(rng, emit);
     }
     if stress {
         // the regular structured families once more (every second one with repeated calls), then stop:
